@@ -6,9 +6,11 @@ V = os.path.dirname(os.path.dirname(os.path.abspath(__file__)))
 props = [json.loads(l)["id"] for l in open(os.path.join(V, "properties.jsonl")) if l.strip()]
 na_reasons = json.load(open(os.path.join(V, "tools", "not_applicable.json")))
 checks, na = [], []
+# Only properties listed in tools/claimed.txt are claimed (a checks.d entry may be work in progress).
+claimed = set(open(os.path.join(V, "tools", "claimed.txt")).read().split())
 for pid in props:
     f = os.path.join(V, "checks.d", pid + ".json")
-    if os.path.exists(f) and not json.load(open(f)).get("disabled"):
+    if pid in claimed and os.path.exists(f):
         s = json.load(open(f))
         c = {"property_id": pid, "quick_cmd": "./check %s quick" % pid, "thorough_cmd": "./check %s thorough" % pid,
              "evidence_file": "/verif/evidence/%s.json" % pid, "replay_cmd_template": "./check %s --replay {path}" % pid,
@@ -25,9 +27,9 @@ m = {"version": 1,
      "hooks": {"guard": "verif", "enable": "go test -tags verif -overlay <generated overlay.json> (harness files, the virtual engine package internal/verifmc and import-rewritten copies are injected by build overlay; /repo carries no hook)",
                "baseline_off_cmd": json.load(open("/root/.vp/BASELINE.json"))["cmd"], "source_commits": [], "add_only": True},
      "engines": [
-         {"name": "E1 sched", "path": "engine/mc", "serves_properties": [p for p in props if os.path.exists(os.path.join(V, "checks.d", p + ".json")) and json.load(open(os.path.join(V, "checks.d", p + ".json"))).get("engine", "E1 sched") == "E1 sched"],
+         {"name": "E1 sched", "path": "engine/mc", "serves_properties": [p for p in props if p in claimed and os.path.exists(os.path.join(V, "checks.d", p + ".json")) and json.load(open(os.path.join(V, "checks.d", p + ".json"))).get("engine", "E1 sched") == "E1 sched"],
           "kind_free_text": "controlled scheduler inside testing/synctest + stateless DFS with replay, deviation budget and state-key pruning over the real implementation"},
-         {"name": "E2/E4 enum", "path": "engine/mc/report.go", "serves_properties": [p for p in props if os.path.exists(os.path.join(V, "checks.d", p + ".json")) and json.load(open(os.path.join(V, "checks.d", p + ".json"))).get("engine", "E1 sched") != "E1 sched"],
+         {"name": "E2/E4 enum", "path": "engine/mc/report.go", "serves_properties": [p for p in props if p in claimed and os.path.exists(os.path.join(V, "checks.d", p + ".json")) and json.load(open(os.path.join(V, "checks.d", p + ".json"))).get("engine", "E1 sched") != "E1 sched"],
           "kind_free_text": "explicit-state BFS over operation histories on real objects / bounded-exhaustive enumeration of inputs and adversary moves against reference models"}],
      "checks": checks, "not_applicable": na,
      "notes": "All instrumentation is by build overlay (no commits to /repo except fix: commits). ./check <id> <tier> rebuilds from /repo's working tree."}
